@@ -519,6 +519,7 @@ impl Case {
         let log = self.log.clone();
         let mut restored_from: Option<Vec<usize>> = None;
         let mut cycle_ctx: Option<(Vec<usize>, Option<Vec<usize>>, bool)> = None;
+        let mut stale_known: Option<String> = None;
         let mut fails: Vec<(String, String)> = vec![];
         let mut cycle_zero_short = false;
         let r = &mut self.reference;
@@ -596,6 +597,14 @@ impl Case {
                             fails.push(("lru-load-unknown".into(), format!("run_cycle found generation {g} on disk that no checkpoint wrote")));
                         }
                         cx.s.tally("persist.run_cycle.outside-clause(re-anchored)");
+                        // known shape 3 (design of the generation scheme): the checkpoint written
+                        // last went to a LOWER name than a file that is still there, because the
+                        // manager that wrote it had not adopted the newest file first
+                        if let Some((g, snap)) = &self.persist.last {
+                            if by_name.is_some() && by_name.as_ref() != Some(snap) {
+                                stale_known = Some(format!("outside the history-order clause: the checkpoint written last (#{} of this history, file of generation {g}, holding {:?}) was written by a manager that had not adopted the newest file of the directory (new manager without run_cycle, or after load_from_disk of an older generation); run_cycle restores the file with the largest generation name {:?} holding {:?}; files before the cycle {:?}", self.persist.written, snap, gens_before.last(), by_name.as_ref().unwrap(), gens_before));
+                            }
+                        }
                     } else {
                         cx.s.tally(if expect.is_some() { "persist.run_cycle.held-against-last-checkpoint-written" } else { "persist.run_cycle.no-checkpoint-yet" });
                         if expect.is_some() {
@@ -729,6 +738,9 @@ impl Case {
             return true;
         }
         if fails.is_empty() {
+            if let Some(msg) = stale_known {
+                cx.fail("lru-stale-reload-unsynced-checkpoint", &msg, &log);
+            }
             return true;
         }
         // known shape 2: a reload of a checkpoint that held the all-zero key comes back exactly
@@ -838,7 +850,7 @@ fn exhaustive(cx: &mut Ctx, cap: u32, keys: &[Key], alphabet: &[Op], len: usize,
                     break;
                 }
                 // every checkpoint file is read back as a linked list (no state change)
-                if alphabet[i] == Op::Checkpoint && !c.apply(cx, &Op::FileCheck) {
+                if matches!(alphabet[i], Op::Checkpoint | Op::Shutdown) && !c.apply(cx, &Op::FileCheck) {
                     break;
                 }
             }
@@ -856,6 +868,81 @@ fn exhaustive(cx: &mut Ctx, cap: u32, keys: &[Key], alphabet: &[Op], len: usize,
     }
 }
 
+/// run one scripted history; `Load(LAST)` = load the file the last checkpoint was written to.
+fn scripted(cx: &mut Ctx, cap: u32, keys: &[Key], script: &[Op], filecheck: bool) {
+    let mut c = Case::begin(cx, cap, keys.to_vec());
+    for op in script {
+        let op = match op {
+            Op::Load(LAST) => Op::Load(c.persist.name().unwrap_or(1)),
+            o => o.clone(),
+        };
+        if !c.apply(cx, &op) {
+            break;
+        }
+        if filecheck && matches!(op, Op::Checkpoint | Op::Shutdown) && !c.apply(cx, &Op::FileCheck) {
+            break;
+        }
+    }
+    c.end(cx);
+}
+
+/// (D) checkpoint histories with something in the middle.  Every history is
+///   fill S1; bump x b1; WRITE1; MIDDLE; make the table S2; bump x b2; WRITE2; dirty the table; RELOAD
+/// with WRITE in {checkpoint_to_disk, shutdown}, b1, b2 in 0..=2, MIDDLE over every operation of
+/// the alphabet (alone and in the pairs that matter around a reset / a restart) and RELOAD over
+/// every way a saved table comes back: run_cycle on the same manager, restart + run_cycle,
+/// find_latest_lru_file, load_from_disk of the file written last (same manager and after a
+/// restart), and the same again after the manager has been reset.  S1, S2 and the dirty table are
+/// pairwise different and non-empty, so restoring the wrong checkpoint, or none, is visible.
+/// All of these histories are inside the persistence clause (no checkpoint is written by a
+/// manager that has not seen the directory), so each RELOAD is held against WRITE2's table.
+fn persistence_grid(cx: &mut Ctx, thorough: bool) {
+    let keys: Vec<Key> = vec![ZERO, [0x11; 9], [0, 0, 0, 0, 0, 0, 0, 0, 1], [0xFF; 9]];
+    use Op::*;
+    let middles: Vec<Vec<Op>> = vec![
+        vec![], vec![Reset], vec![Touch(3)], vec![Remove(1)], vec![EvictTail], vec![EvictTo(1, 1)], vec![EvictTo(9, 1)], vec![Bump],
+        vec![RunCycle(0, 0)], vec![RunCycle(1, 1)], vec![Reopen, RunCycle(0, 0)], vec![Load(LAST)], vec![Reopen, Load(LAST)],
+        vec![Latest], vec![Load(77)],
+        vec![Reset, Reset], vec![Reset, Bump], vec![Bump, Reset], vec![Reset, RunCycle(0, 0)], vec![RunCycle(0, 0), Reset],
+        vec![Reopen, RunCycle(0, 0), Reset], vec![Reset, Touch(3), EvictTail], vec![Reset, Load(LAST)], vec![Load(LAST), Reset],
+        vec![Reopen, Latest, RunCycle(1, 1), Bump],
+    ];
+    let reloads: Vec<Vec<Op>> = vec![
+        vec![RunCycle(0, 0)], vec![RunCycle(1, 1)], vec![Reopen, RunCycle(0, 0)], vec![Reopen, RunCycle(0, 1), Latest],
+        vec![Latest, Load(LAST)], vec![Reopen, Load(LAST), RunCycle(0, 0)], vec![Reset, RunCycle(0, 0)], vec![Bump, Reset, Bump, RunCycle(3, 1), Latest],
+    ];
+    let writes = [Checkpoint, Shutdown];
+    let mut n = 0u64;
+    for cap in 1..=3u32 {
+        for b1 in 0..=2usize {
+            for b2 in 0..=2usize {
+                // the full bump grid on capacity 2; the corners elsewhere (thorough: everywhere)
+                if !thorough && cap != 2 && !matches!((b1, b2), (0, 0) | (2, 0) | (1, 1) | (0, 2)) { continue; }
+                for (w1, w2) in [(0, 0), (1, 0), (0, 1), (1, 1)] {
+                    if !thorough && cap != 2 && w1 != w2 { continue; }
+                    for mid in &middles {
+                        for rel in &reloads {
+                            let mut sc: Vec<Op> = vec![Touch(1)];
+                            if cap >= 2 { sc.push(Touch(2)); }
+                            sc.extend(std::iter::repeat(Bump).take(b1));
+                            sc.push(writes[w1].clone());
+                            sc.extend(mid.iter().cloned());
+                            sc.extend([Touch(2), Remove(1), Remove(3)]);
+                            sc.extend(std::iter::repeat(Bump).take(b2));
+                            sc.push(writes[w2].clone());
+                            sc.push(Touch(1));
+                            sc.extend(rel.iter().cloned());
+                            n += 1;
+                            scripted(cx, cap, &keys, &sc, n % 7 == 0);
+                        }
+                    }
+                }
+            }
+        }
+    }
+    cx.s.with(|s| { s.extra.insert("persistence_grid_histories".into(), serde_json::json!(n)); });
+}
+
 fn random_history(cx: &mut Ctx, rng: &mut Rng, cap: u32, max_len: usize) {
     let with_zero = rng.chance(1, 3);
     let extra = rng.range(1, 4) as usize;
@@ -865,6 +952,10 @@ fn random_history(cx: &mut Ctx, rng: &mut Rng, cap: u32, max_len: usize) {
     let n = rng.range(max_len as u64 / 4, max_len as u64) as usize;
     let mut known_gens: Vec<u64> = vec![1];
     let persist = rng.chance(2, 3);
+    // half of the persistence histories stay inside the history-order clause for their whole
+    // length: reloads name the file written last, a restart runs a cycle before anything else
+    let disciplined = persist && rng.chance(1, 2);
+    if disciplined { cx.s.tally("random.disciplined-persistence"); }
     let mut i = 0;
     while i < n {
         i += 1;
@@ -893,8 +984,13 @@ fn random_history(cx: &mut Ctx, rng: &mut Rng, cap: u32, max_len: usize) {
             78..=79 => Op::Reset,
             _ if !persist => Op::Touch(rng.below(nk as u64) as usize),
             80..=84 => Op::Bump,
-            85..=90 => { Op::Checkpoint }
-            91..=95 => Op::Load(if rng.chance(1, 8) { rng.range(1, 6) } else { *rng.pick(&known_gens) }),
+            85..=90 => if rng.chance(1, 4) { Op::Shutdown } else { Op::Checkpoint },
+            91..=95 => match rng.below(8) {
+                0 => Op::Latest,
+                1 if !disciplined => Op::Load(rng.range(1, 6)),
+                _ if disciplined => Op::Load(c.persist.name().unwrap_or(1)),
+                _ => Op::Load(*rng.pick(&known_gens)),
+            },
             96..=98 => {
                 let avg = *rng.pick(&[0u64, 1, 1, 10]);
                 Op::RunCycle(match rng.below(3) { 0 => 0, 1 => avg * rng.below(cap as u64 + 1), _ => rng.below(10 * cap as u64 + 1) }, avg)
@@ -904,12 +1000,19 @@ fn random_history(cx: &mut Ctx, rng: &mut Rng, cap: u32, max_len: usize) {
         if !c.apply(cx, &op) {
             break;
         }
-        if matches!(op, Op::Checkpoint) {
+        if matches!(op, Op::Checkpoint | Op::Shutdown) {
             let g = c.lru.generation();
             if !known_gens.contains(&g) { known_gens.push(g); }
         }
-        if (matches!(op, Op::Checkpoint) && rng.chance(2, 3)) || (persist && rng.chance(1, 25)) {
+        if (matches!(op, Op::Checkpoint | Op::Shutdown) && rng.chance(2, 3)) || (persist && rng.chance(1, 25)) {
             if !c.apply(cx, &Op::FileCheck) {
+                break;
+            }
+        }
+        // a restart looks at the directory first (always when disciplined, often otherwise)
+        if matches!(op, Op::Reopen) && (disciplined || rng.chance(1, 2)) {
+            let cyc = if rng.chance(1, 2) { Op::RunCycle(0, 0) } else { Op::RunCycle(rng.below(3 * cap as u64 + 1), 1) };
+            if !c.apply(cx, &cyc) {
                 break;
             }
         }
@@ -958,7 +1061,9 @@ fn replay(cx: &mut Ctx, lines: &[String]) {
 fn main() {
     let args = Args::parse();
     quiet_panics();
-    let tmp = tempfile::tempdir().expect("tempdir");
+    // real files, on tmpfs when there is one: checkpoint_to_disk fsyncs every file, and the
+    // persistence sections write tens of thousands of checkpoints (durability is C06's subject)
+    let tmp = tempfile::tempdir_in("/dev/shm").or_else(|_| tempfile::tempdir()).expect("tempdir");
     let beat = Arc::new(AtomicU64::new(0));
     let shared = Shared(Arc::new(Mutex::new(Some(Session::new(&args.out)))));
     let cur: Arc<Mutex<Vec<String>>> = Arc::new(Mutex::new(vec![]));
@@ -995,7 +1100,7 @@ fn main() {
         beat,
         sig_count: HashMap::new(),
     };
-    let rule: String = "op histories over touch/remove/evict_tail/evict_to_target/bump_generation/checkpoint_to_disk/load_from_disk/run_cycle/reset/reopen on the real LruManager (real files in a temp dir): (A) every in-memory history up to a length bound over capacities 1-3 and the keys {all-zero, a, b, c} (non-zero keys in canonical first-use order), (B) every persistence history up to a shorter bound over capacities 1-3 and keys {all-zero, a, b}, (C) seeded random long histories for capacities 0..64 with directed fill / public-evict / refill phases; in (B) after every checkpoint and in (C) after 2/3 of them and at random points a `filecheck` reads the .lru file of the current generation back as a doubly linked list (own parser) and holds it against the representation invariant and the textbook order; evaluation = one history; non-trivial = history reaches touch-evicts-at-capacity, an evict_to_target that evicts, or a successful reload; distinct = canonical request text of the history".into();
+    let rule: String = "op histories over touch/remove/evict_tail/evict_to_target/bump_generation/checkpoint_to_disk/load_from_disk/run_cycle/reset/reopen/shutdown (+ find_latest_lru_file as a probe) on the real LruManager (real files in a temp dir): (A) every in-memory history up to a length bound over capacities 1-3 and the keys {all-zero, a, b, c} (non-zero keys in canonical first-use order), (B) every persistence history up to a shorter bound over capacities 1-3 and keys {all-zero, a, b} (15 ops incl. shutdown), (C) seeded random long histories for capacities 0..64 with directed fill / public-evict / refill phases, half of the persistence ones disciplined (reloads name the file written last, a restart runs a cycle first), (D) the grid `fill; bump x 0..2; checkpoint|shutdown; MIDDLE; other table; bump x 0..2; checkpoint|shutdown; dirty; RELOAD` with MIDDLE over every operation (reset, evictions, bump, run_cycle, restart, load, … alone and in pairs around reset / restart) and RELOAD over every loading entry point (run_cycle, restart + run_cycle, find_latest_lru_file, load_from_disk of the file written last, each also after reset / restart); in (B) and 1/7 of (D) after every checkpoint and in (C) after 2/3 of them and at random points a `filecheck` reads the .lru file of the current generation back as a doubly linked list (own parser) and holds it against the representation invariant and the textbook order; every run_cycle / find_latest_lru_file of a history in which no checkpoint was written by a manager out of step with the directory is held against the checkpoint written LAST in history order (harness's own record, no generation arithmetic); evaluation = one history; non-trivial = history reaches touch-evicts-at-capacity, an evict_to_target that evicts, or a successful reload; distinct = canonical request text of the history".into();
     cx.s.with(|s| s.rule = rule);
     let mut rng = Rng::new(args.seed);
 
@@ -1034,7 +1139,7 @@ fn main() {
     // (B) exhaustive persistence histories
     let alpha_b: Vec<Op> = vec![
         Op::Touch(0), Op::Touch(1), Op::Touch(2), Op::Remove(1), Op::EvictTail, Op::EvictTo(1, 1), Op::Bump, Op::Checkpoint,
-        Op::Load(1), Op::Load(2), Op::RunCycle(0, 1), Op::RunCycle(1, 1), Op::Reset, Op::Reopen,
+        Op::Load(1), Op::Load(2), Op::RunCycle(0, 1), Op::RunCycle(1, 1), Op::Reset, Op::Reopen, Op::Shutdown,
     ];
     let lb = if thorough { 4 } else { 3 };
     for cap in 1..=3u32 {
@@ -1043,7 +1148,9 @@ fn main() {
         }
     }
     exhaustive(&mut cx, 2, &keys3, &alpha_b, lb + 1, 1);
-    cx.s.with(|s| { s.extra.insert("exhaustive_persistence_len".into(), serde_json::json!({"caps 1-3, 3 keys, 14 ops": lb, "cap 2": lb + 1})); });
+    cx.s.with(|s| { s.extra.insert("exhaustive_persistence_len".into(), serde_json::json!({"caps 1-3, 3 keys, 15 ops": lb, "cap 2": lb + 1})); });
+    // (D) checkpoint histories with something in the middle, every reload entry point
+    persistence_grid(&mut cx, thorough);
     // (C) random long histories
     let n_random = if thorough { 6000 } else { 600 };
     let caps: [u32; 16] = [0, 1, 2, 3, 4, 4, 5, 7, 8, 15, 16, 17, 31, 32, 33, 64];
